@@ -54,6 +54,13 @@ func GetSession(sid string) (*Session, bool) {
 		return nil, false
 	}
 
+	// An expired session is refused (and removed), never revived by the extension below
+	if !sess.ExpiresAt.After(time.Now()) {
+		slog.Debug("Session expired", "session_id", sid, "expires_at", sess.ExpiresAt)
+		sessionStore.Delete(sid)
+		return nil, false
+	}
+
 	// Extend session expiration if close to expiring
 	if time.Until(sess.ExpiresAt) <= extendThreshold {
 		slog.Debug("Session close to expiring, extending expiration", "session_id", sid, "expires_at", sess.ExpiresAt)
